@@ -106,9 +106,10 @@ func runC10(r *Report) {
 	// R10a: typestate – no Next/Prev on an element after Remove of the same value.
 	nRemove := 0
 	for _, fn := range p.ModuleFuncs() {
-		for _, s := range CallSites(fn, listRemove) {
+		for _, rm := range removalSites(fn) {
+			s := rm.Site
 			nRemove++
-			elem := s.Call().Common().Args[1]
+			elem := rm.elem
 			def, _ := elem.(ssa.Instruction)
 			found, at := Reaches(s, func(x Site) bool {
 				c, ok := CallTo(x.Instr, "container/list.(*Element).Next", "container/list.(*Element).Prev")
@@ -126,8 +127,9 @@ func runC10(r *Report) {
 	// R10b/R10d-state: every removal knows the entry state; completed removals are paired with the
 	// size decrement and the index map update.
 	for _, fn := range fns {
-		for _, s := range CallSites(fn, listRemove) {
-			elem := s.Call().Common().Args[1]
+		for _, rm := range removalSites(fn) {
+			s := rm.Site
+			elem := rm.elem
 			dnf := GuardDNF(s.Block, 4)
 			pending := AllDisjuncts(dnf, func(g Guard) bool { ip, ok := pendingGuard(g, elem); return ok && ip })
 			completed := AllDisjuncts(dnf, func(g Guard) bool { ip, ok := pendingGuard(g, elem); return ok && !ip })
@@ -163,7 +165,11 @@ func runC10(r *Report) {
 					_, _, eb, _ := FieldRef(Strip(b.Y).(*ssa.UnOp).X)
 					return isEntryOfElem(eb, elem)
 				}
-				r.ObSite("R10b", s, "remove-size-paired", pairedWith(s, dec), "removal of a completed entry must be paired on all paths with c.size -= e.size of that same entry")
+				sizeOK := pairedWith(s, dec)
+				if rm.viaHelper {
+					sizeOK = rm.entry != nil && isEntryOfElem(rm.entry, elem) // the helper subtracts the size of the entry it is handed
+				}
+				r.ObSite("R10b", s, "remove-size-paired", sizeOK, "removal of a completed entry must be paired on all paths with c.size -= e.size of that same entry")
 			}
 		}
 	}
@@ -210,12 +216,12 @@ func runC10(r *Report) {
 	}
 	for _, a := range p.FieldAccesses(entryT, "size") {
 		if a.Write {
-			ok := FuncName(TopFunc(a.Fn)) == "rueidis.(*lru).Update"
+			ok := FuncName(TopFunc(a.Fn)) == "rueidis.(*lru).Update" || helperOnlyCalledFrom(p, TopFunc(a.Fn), map[string]bool{"rueidis.(*lru).Update": true}, 1)
 			r.ObSite("R10c", a.Site, "entry-size-writer", ok, "cacheEntry.size is written only by lru.Update when the entry completes")
 		}
 	}
 	r.FieldLockCheck("R10c-lock", lruT, "size", "mu", p.ModuleFuncs())
-	r.Min("R10c", 5)
+	r.Min("R10c", 3)
 
 	// R10d: eviction policy in Update.
 	if upd != nil {
@@ -224,6 +230,21 @@ func runC10(r *Report) {
 			if st, ok := a.Instr.(*ssa.Store); ok {
 				if b, isb := st.Val.(*ssa.BinOp); isb && b.Op == token.ADD {
 					incs = append(incs, a.Site)
+				}
+			}
+		}
+		// the completion of the entry (with the size increase) may be a helper only Update calls: the
+		// call is then the point after which the eviction must run
+		for _, cs := range Sites(upd, func(in ssa.Instruction) bool { _, ok := in.(*ssa.Call); return ok }) {
+			h := cs.Call().Common().StaticCallee()
+			if h == nil || h.Blocks == nil || isExportedName(h.Name()) || !strings.HasPrefix(FuncName(h), "rueidis.(*lru).") || !helperOnlyCalledFrom(p, h, map[string]bool{"rueidis.(*lru).Update": true}, 1) {
+				continue
+			}
+			for _, a := range FieldAccessesIn(h, lruT, "size") {
+				if st, ok := a.Instr.(*ssa.Store); ok {
+					if b, isb := st.Val.(*ssa.BinOp); isb && b.Op == token.ADD {
+						incs = append(incs, cs)
+					}
 				}
 			}
 		}
@@ -262,8 +283,8 @@ func runC10(r *Report) {
 		loopFn := upd
 		var helperCall func(ssa.Instruction) bool
 		hasLoop := func(f *ssa.Function) bool {
-			for _, s := range CallSites(f, listRemove) {
-				if _, isphi := s.Call().Common().Args[1].(*ssa.Phi); isphi {
+			for _, rm := range removalSites(f) {
+				if _, isphi := rm.elem.(*ssa.Phi); isphi {
 					return true
 				}
 			}
@@ -314,8 +335,9 @@ func runC10(r *Report) {
 		upd := loopFn // the loop rules below apply to the function that holds the loop
 		// the removal inside the loop: guarded by size>max and acts on a cursor that starts at Front and advances by Next
 		nLoop := 0
-		for _, s := range CallSites(upd, listRemove) {
-			elem := s.Call().Common().Args[1]
+		for _, rm := range removalSites(upd) {
+			s := rm.Site
+			elem := rm.elem
 			ph, isphi := elem.(*ssa.Phi)
 			if !isphi {
 				continue
@@ -339,8 +361,9 @@ func runC10(r *Report) {
 		r.Anchor("R10d", "eviction loop removal in lru.Update", nLoop > 0)
 		// every completed entry met by the eviction cursor is evicted: from the completed arm of the
 		// pending test inside the loop, every path back to the loop head passes the removal.
-		for _, s := range CallSites(upd, listRemove) {
-			elem := s.Call().Common().Args[1]
+		for _, rm := range removalSites(upd) {
+			s := rm.Site
+			elem := rm.elem
 			if _, isphi := elem.(*ssa.Phi); !isphi {
 				continue
 			}
@@ -474,4 +497,89 @@ func returnAvoiding(s Site, good func(from *ssa.BasicBlock, succ int) bool) bool
 		return false
 	}
 	return dfs(s.Block, s.Idx+1)
+}
+
+// removal is one place where an element leaves the LRU list: a direct list.Remove call, or a call of
+// an unexported lru helper that does exactly `c.list.Remove(ele); c.size -= e.size` for the element
+// and entry it is handed (`c.unlist(ele, e)`).
+type removal struct {
+	Site
+	elem      ssa.Value
+	entry     ssa.Value // helper form: the entry whose size the helper subtracts
+	viaHelper bool
+}
+
+// unlistHelper: fn is straight-line, removes its element parameter from the list and subtracts the
+// size of its entry parameter from c.size - nothing else. Returns the two parameters.
+func unlistHelper(fn *ssa.Function) (elem, entry *ssa.Parameter, ok bool) {
+	if fn == nil || len(fn.Blocks) != 1 || isExportedName(fn.Name()) || !strings.HasPrefix(FuncName(fn), "rueidis.(*lru).") {
+		return nil, nil, false
+	}
+	nRem, nDec := 0, 0
+	for _, in := range fn.Blocks[0].Instrs {
+		switch x := in.(type) {
+		case *ssa.Call:
+			if CalleeName(x) != listRemove {
+				return nil, nil, false
+			}
+			prm, isp := x.Call.Args[1].(*ssa.Parameter)
+			if !isp {
+				return nil, nil, false
+			}
+			elem = prm
+			nRem++
+		case *ssa.Store:
+			b, isb := x.Val.(*ssa.BinOp)
+			if !IsFieldAddr(x.Addr, lruT, "size") || !isb || b.Op != token.SUB || !IsFieldLoad(b.X, lruT, "size") || !IsFieldLoad(b.Y, entryT, "size") {
+				return nil, nil, false
+			}
+			_, _, eb, _ := FieldRef(Strip(b.Y).(*ssa.UnOp).X)
+			prm, isp := eb.(*ssa.Parameter)
+			if !isp {
+				return nil, nil, false
+			}
+			entry = prm
+			nDec++
+		case *ssa.MapUpdate, *ssa.Send, *ssa.Go, *ssa.Defer, *ssa.If:
+			return nil, nil, false
+		}
+	}
+	return elem, entry, nRem == 1 && nDec == 1
+}
+
+func removalSites(fn *ssa.Function) []removal {
+	var out []removal
+	if _, _, isH := unlistHelper(fn); isH {
+		return nil // accounted for at its call sites
+	}
+	for _, s := range CallSites(fn, listRemove) {
+		out = append(out, removal{Site: s, elem: s.Call().Common().Args[1]})
+	}
+	for _, s := range Sites(fn, func(in ssa.Instruction) bool {
+		c, ok := in.(*ssa.Call)
+		if !ok {
+			return false
+		}
+		_, _, isH := unlistHelper(c.Call.StaticCallee())
+		return isH
+	}) {
+		c := s.Instr.(*ssa.Call)
+		h := c.Call.StaticCallee()
+		ep, np, _ := unlistHelper(h)
+		rm := removal{Site: s, viaHelper: true}
+		for k, prm := range h.Params {
+			if k < len(c.Call.Args) {
+				if prm == ep {
+					rm.elem = c.Call.Args[k]
+				}
+				if prm == np {
+					rm.entry = c.Call.Args[k]
+				}
+			}
+		}
+		if rm.elem != nil {
+			out = append(out, rm)
+		}
+	}
+	return out
 }
